@@ -30,7 +30,10 @@ Rows == {
   R("string", "float:1.5", "1.5"), R("string", "ints:1,2", "[1 2]"),
   \* %v, not a hand-rolled formatter: large and small floats print in exponent form, times in Go's default layout
   R("string", "float:1234567", "1.234567e+06"), R("string", "float:0.00001", "1e-05"), R("string", "float:1e21", "1e+21"),
-  R("string", "float:123456", "123456"), R("string", "float32:0.5", "0.5"), R("string", "int64:7", "7"), R("string", "bool:false", "false"),
+  R("string", "float:123456", "123456"), R("string", "float32:0.5", "0.5"),
+  \* a float32 prints with 32-bit shortest digits (%v), not as the float64 it widens to
+  R("string", "float32:0.1", "0.1"), R("string", "float32:3.14", "3.14"), R("string", "float32:16777216", "1.6777216e+07"),
+  R("string", "int64:7", "7"), R("string", "bool:false", "false"),
   R("string", "strs:b,a", "[b a]"), R("string", "time:native", "2020-01-02 03:04:05 +0000 UTC"),
   \* int / float from text and numbers (magnitudes are Tab_C18's business)
   R("int", "str:1", "1"), R("int", "str:-17", "-17"), R("int", "int:7", "7"), R("int", "int64:7", "7"), R("int", "int32:7", "7"),
